@@ -15,6 +15,7 @@ Definition nsite_eqb (a b : string * string * string * string) : bool :=
 Definition reviewed_sites : list (string * string * string * string) :=
   [ (* splits the constant 'center|left|right|inner|outer', not a user name *)
     ("axis.py", "__init__", "str.split", "VALID_POSITION_NAMES.split('|')");
+    ("grid.py", "_create_1d_grid_ufunc_signatures", "str.split", "VALID_POSITION_NAMES.split('|')");
     (* number of coordinates / matching dims / candidate ufuncs / arguments: lengths of lists *)
     ("comodo.py", "get_axis_positions_and_coords", "len-of-name", "len(coord_names)");
     ("grid.py", "_get_dims_from_axis", "len-of-name", "len(matching_dim)");
